@@ -116,15 +116,20 @@ def build_case(cid, rng, dynamic, force_async=False, no_send=False, probes=False
             apps.append(("App%d" % k, tgt, "App%d { tag: %d }" % (k, k)))
     else:
         sync = " + ::core::marker::Sync" if has_async else ""
-        L.append("pub struct AppD { pub t: ::std::boxed::Box<dyn TrImpl<AppD> + ::core::marker::Send + ::core::marker::Sync> }")
+        L.append("pub struct AppD { pub t: ::std::boxed::Box<dyn TrImpl<AppD> + ::core::marker::Send + ::core::marker::Sync>, pub decoy: ::std::boxed::Box<dyn TrImpl<AppD> + ::core::marker::Send + ::core::marker::Sync> }")
         L += [x.replace("APP", "AppD") for x in leaf_impls]
+        # the app provides its target through the selected conversion trait; the *other* conversion trait leads to a decoy
+        sel_f, dec_f = ("t", "decoy")
         if via_borrow:
-            L.append("impl ::core::borrow::Borrow<dyn TrImpl<AppD>%s> for AppD { fn borrow(&self) -> &(dyn TrImpl<AppD>%s + 'static) { &*self.t } }" % (sync, sync))
+            L.append("impl ::core::borrow::Borrow<dyn TrImpl<AppD>%s> for AppD { fn borrow(&self) -> &(dyn TrImpl<AppD>%s + 'static) { &*self.%s } }" % (sync, sync, sel_f))
+            L.append("impl ::core::convert::AsRef<dyn TrImpl<AppD>%s> for AppD { fn as_ref(&self) -> &(dyn TrImpl<AppD>%s + 'static) { &*self.%s } }" % (sync, sync, dec_f))
         else:
-            L.append("impl ::core::convert::AsRef<dyn TrImpl<AppD>%s> for AppD { fn as_ref(&self) -> &(dyn TrImpl<AppD>%s + 'static) { &*self.t } }" % (sync, sync))
+            L.append("impl ::core::convert::AsRef<dyn TrImpl<AppD>%s> for AppD { fn as_ref(&self) -> &(dyn TrImpl<AppD>%s + 'static) { &*self.%s } }" % (sync, sync, sel_f))
+            L.append("impl ::core::borrow::Borrow<dyn TrImpl<AppD>%s> for AppD { fn borrow(&self) -> &(dyn TrImpl<AppD>%s + 'static) { &*self.%s } }" % (sync, sync, dec_f))
         picks = rng.sample(targets, 2)
         for k, tgt in enumerate(picks):
-            apps.append(("AppD", tgt, "AppD { t: ::std::boxed::Box::new(%s) }" % tgt))
+            other = [x for x in targets if x != tgt][0]
+            apps.append(("AppD", tgt, "AppD { t: ::std::boxed::Box::new(%s), decoy: ::std::boxed::Box::new(%s) }" % (tgt, other)))
     D = ["pub fn run() {"]
     calls = []
     base = 1
